@@ -11,42 +11,47 @@ MANIFEST = {
             "coap_read_session): frame phase at full strength - ws_frames_eq_spec (from every reader state of the invariant WsInv "
             "with the handshake done, for every list of chunks: messages, order, closed-or-not = S_ws on pending ++ concatenated "
             "bytes), ws_frames_segmentation_invariant, ws_frames_cut_invariant, ws_frames_no_message_stuck, ws_frames_no_oob; for every "
-            "byte stream and segmentation ws_reader_no_oob (never outside http_hdr[160] / rd_header[14], never stalled) and "
-            "ws_reader_final_state (an open session holds at most a proper prefix of one frame or an unfinished header line); whole "
-            "connection incl. the upgrade - ws_reader_eq_spec_partial, ws_reader_segmentation_invariant_partial, "
-            "ws_reader_cut_invariant_partial, ws_no_message_stuck_partial, ws_reader_no_oob_partial for every list of chunks whose "
-            "header block has no NUL byte in a complete line and no accepted line starting with its separator (hsCleanOf); outside "
-            "that sub-domain model and specification differ (ws_blank_led_line_differs). Nine defects found on the way are fixed in "
-            "/repo (1 TCP, 8 WebSocket).",
+            "whole connection incl. the HTTP upgrade at full strength, for EVERY byte stream and every list of chunks, no hypothesis "
+            "on the bytes: ws_reader_eq_spec (messages, order, up, closed-or-not = S_ws on the concatenated bytes), "
+            "ws_reader_segmentation_invariant, ws_reader_cut_invariant, ws_no_message_stuck, ws_reader_no_oob (never outside "
+            "http_hdr[160] / rd_header[14], never stalled), ws_reader_final_state (an open session holds at most a proper prefix of "
+            "one frame or an unfinished header line). NUL bytes in the header block are part of S_ws (D20: a line with a NUL in "
+            "front of its LF has no end, as for strchr); a header line starting with its separator, which libcoap took for the "
+            "end of the header block, is refused since fix 8c32d61 (ws_blank_led_line_refused). coap_ws_close's draining loop "
+            "(model closeDrain, tied by the wsclose lines): ws_close_drain_bounded (at most 5 coap_ws_read calls from every reader "
+            "state for every pending byte string), ws_close_drain_idle, ws_close_drain_recv, ws_read_data_fits (the data part of "
+            "coap_ws_read never hands back more than the caller's buffer holds, any state, any buffer size). Ten defects found on the way are "
+            "fixed in /repo (1 TCP, 9 WebSocket).",
     "note": "Trusted: Lean kernel (+ propext, Classical.choice, Quot.sound), harness/stream.c (chunk feeder replacing the socket layer, "
             "dispatch hook 2de516c), generators, the hand transcriptions M / M_ws (checked against the compiled code on the cases run "
-            "only). PARTIAL for the WebSocket handshake: the theorems ending in _partial carry the hypothesis hsCleanOf on the header "
-            "block (libcoap takes a header line that starts with a blank for the end of the block; NUL bytes are C-string ends); "
-            "the frame phase is proved without such a hypothesis.",
+            "only). Which upgrade header lines are acceptable is a "
+            "parameter of S_ws (D17, instantiated with the per-line checks of the code); SHA-1/base64 are oracles.",
     "design_ref": "DESIGN.md §4 C05, design/C05.md",
 }
 LEAN_MODULES = ["CoapVerif.Props.C05"]
 NAMESPACE = "Coap.C05"
 REQUIRED_THEOREMS = ["reader_eq_spec", "reader_segmentation_invariant", "reader_cut_invariant", "oversize_closes", "no_message_stuck",
                      "reader_no_oob", "spec_delivers_complete_frame", "ws_long_line_closes",
-                     "ws_first_line_segmentation_invariant_partial", "ws_first_line_eq_spec_partial",
                      "ws_frames_eq_spec", "ws_frames_segmentation_invariant", "ws_frames_cut_invariant",
                      "ws_frames_no_message_stuck", "ws_frames_no_oob", "ws_init_inv", "ws_up_inv",
-                     "ws_reader_eq_spec_partial", "ws_reader_segmentation_invariant_partial", "ws_reader_cut_invariant_partial",
-                     "ws_no_message_stuck_partial", "ws_reader_no_oob_partial", "ws_blank_led_line_differs",
+                     "ws_reader_eq_spec", "ws_reader_segmentation_invariant", "ws_reader_cut_invariant",
+                     "ws_no_message_stuck", "ws_blank_led_line_refused",
+                     "ws_close_drain_bounded", "ws_close_drain_idle", "ws_close_drain_recv", "ws_read_data_fits",
                      "ws_reader_no_oob", "ws_reader_final_state"]
 RULE = ("(byte stream, segmentation) pairs replayed into the real coap_read_session of a TCP / WebSocket session whose lowest "
         "layer is a chunk feeder: streams = 1-6 encoded messages (all four TCP length forms, tokens 0..extended, a share of "
         "field-mutated frames, oversize declared lengths, small configured maxima; WS: handshake + masked/unmasked frames with "
-        "7/16/64-bit lengths); segmentations = every 2- and 3-cut placement on short streams, one byte per read, cuts around "
+        "7/16/64-bit lengths; header blocks with NUL bytes, blank-led lines, binary bytes, odd line ends, frames "
+        "inside an unfinished block); segmentations = every 2- and 3-cut placement on short streams, one byte per read, cuts around "
         "every header boundary, reads of exactly the 1472-byte buffer, random; non-trivial = the specification delivers at "
         "least one message or closes the session")
 TRUSTED_BASE = ["Lean 4.33 kernel; axioms allowed: propext, Classical.choice, Quot.sound (audited per theorem each run)",
                 "harness/stream.c (chunk feeder in place of the socket layer, dispatch hook, stack scribbling) + generators + string comparison",
                 "M (CoapVerif/Model/StreamReader.lean) and M_ws (Model/WsReader.lean) are hand transcriptions of the TCP / WebSocket "
                 "readers; checked against the compiled code only on the cases run",
-                "WebSocket: SHA-1/base64 of the accept hash and base64 decoding of the key are oracles; coap_ws_close's draining is "
-                "exercised by the harness but not modelled",
+                "WebSocket: SHA-1/base64 of the accept hash and base64 decoding of the key are oracles; coap_ws_close's draining "
+                "(model closeDrain) is tied to the code by the `wsclose` lines (recv_close, bytes left unread); select() on the "
+                "socket is taken to report readable exactly while bytes are pending",
                 "source hook coap_verif_dispatch_hook (guarded by COAP_VERIF_HOOKS) reports the PDUs entering coap_dispatch"]
 ASSUMPTIONS = ["the transport returns the bytes of the stream in order, in arbitrary non-empty pieces, and never an error (a read "
                "error / EOF closes the session by design)",
@@ -54,15 +59,16 @@ ASSUMPTIONS = ["the transport returns the bytes of the stream in order, in arbit
                "0 < coap_session_max_pdu_rcv_size(session) <= COAP_DEFAULT_MAX_PDU_RX_SIZE - 6 (true for every csm_max_message_size >= 64 "
                "that coap_context_set_csm_max_message_size accepts)",
                "the event loop is level-triggered: coap_read_session is called again while bytes are available",
-               "WebSocket handshake lines contain no NUL byte and no accepted header line starts with a blank (hsCleanOf, the "
-               "hypothesis of the ws_*_partial theorems); which header lines are acceptable is a parameter of S (D17)",
+               "which WebSocket upgrade header lines are acceptable is a parameter of S (D17)",
                "compiled Lean definitions agree with the kernel's reading of them"]
 SPEC_DECISIONS = ["D13 declared length = Len + token field, compared with coap_session_max_pdu_rcv_size",
                   "D14 reserved TKL 15: token field taken as empty, frame dropped, stream continues",
                   "D15 a complete frame that does not decode is dropped, the stream continues",
                   "D16 WS: one CoAP message per binary frame, FIN/RSV ignored, other opcodes close",
                   "D17 acceptance of upgrade header lines is a parameter of S", "D18 over-long line: more than 158 bytes before LF",
-                  "D19 frame above 1472 bytes closes; empty frame carries no message"]
+                  "D19 frame above 1472 bytes closes; empty frame carries no message",
+                  "D20 a NUL byte in a handshake line: the line has no end (bytes behind the NUL, LF included, belong to it); the "
+                  "session closes once 159 bytes of it have arrived (RFC 9110 5.5 allows rejecting)"]
 RUN_KW = {}
 
 
@@ -349,7 +355,7 @@ def gen_ws(ctx, n_streams, exhaustive_upto, n_exh):
         mode = rng.choice(["c", "s"])
         hs, kind = ws_handshake(rng, mode)
         tiny = rng.random() < 0.4
-        # binary frame bytes after an unfinished header block would put NUL bytes into "lines" (C strings): not generated
+        # binary frame bytes after an unfinished header block (NUL bytes in "lines"): see gen_ws_hostile_hs
         k = rng.choice([0, 1, 2, 3, 3, 4, 6]) if kind == "ok" else 0
         frames = []
         for j in range(k):
@@ -430,6 +436,128 @@ def gen_ws_empty_runs(ctx, n_streams):
     return out
 
 
+def gen_ws_hostile_hs(ctx, n_streams):
+    """header blocks outside plain HTTP: NUL bytes (C strings: strchr stops there, SPEC DECISION D20), header lines that
+    start with their separator (once taken for the end of the block: fix 8c32d61), binary bytes / frame bytes inside
+    an unfinished header block, odd line ends, NUL-carrying lines around the 159-byte limit.
+    Not touched, because the model has oracles there: the value of the Sec-WebSocket-Key line (base64 decoding) and the
+    client's status line (atoi) get NUL bytes only (a line with a NUL is never handed to the per-line checks)."""
+    rng = ctx.rng
+    out = []
+    for i in range(n_streams):
+        mode = rng.choice(["c", "s"])
+        ls = [l.encode() for l in W._lines(mode)]
+        eols = [b"\r\n"] * len(ls)
+        end = b"\r\n"
+        marks = []               # stream offsets worth cutting around
+        frozen = lambda j: j == 0 or ls[j].startswith(b"Sec-WebSocket-Key")
+        for _ in range(rng.choice([1, 1, 1, 2, 3])):
+            c = rng.randrange(8)
+            if c == 0:      # a line that starts with its separator, anywhere (also first, also last before the empty line)
+                j = rng.randrange(0, len(ls) + 1)
+                l = rng.choice([b" x", b"\tfoo", b" Host: x", b"  ", b" ", b"\t", b"\tfoo bar", b" \tUpgrade: websocket"])
+                ls.insert(j, l); eols.insert(j, b"\r\n")
+            elif c == 1:    # NUL somewhere in a line
+                j = rng.randrange(len(ls))
+                k = rng.randrange(len(ls[j]) + 1)
+                ls[j] = ls[j][:k] + b"\x00" + ls[j][k:]
+            elif c == 2:    # a byte that matters to a line splitter, in a line without oracle
+                idx = [j for j in range(len(ls)) if not frozen(j)]
+                if idx:
+                    j = rng.choice(idx)
+                    k = rng.randrange(len(ls[j]) + 1)
+                    ls[j] = ls[j][:k] + bytes([rng.choice([0, 9, 10, 13, 32, 0x7f, 0x80, 0xff, rng.randrange(256)])]) + ls[j][k:]
+            elif c == 3:    # odd line end
+                j = rng.randrange(len(ls))
+                eols[j] = b"\n" if frozen(j) else rng.choice([b"\n", b"\r\r\n", b"\r", b"\n\r", b"\x00\r\n", b"\r\x00\n"])
+            elif c == 4:    # an unknown header whose "line" carries a NUL and reaches the neighbourhood of the limit
+                n = rng.choice([100, 150, 155, 156, 157, 158, 159, 160, 161, 170, 300])
+                body = bytearray(rng.choice([65, 66, 10, 13, 32, 0, 9]) for _ in range(n))
+                body[rng.randrange(0, min(n, 8))] = 0
+                j = rng.randrange(1, len(ls) + 1)
+                ls.insert(j, b"X-Z: " + bytes(body)); eols.insert(j, rng.choice([b"\r\n", b""]))
+            elif c == 5:    # the block is not finished: frames follow directly / after a cut-off line without oracle
+                j = rng.randrange(1, len(ls) + 1)
+                ls, eols = ls[:j], eols[:j]
+                end = b""
+                if not frozen(j - 1) and rng.random() < 0.5:
+                    ls[j - 1] = ls[j - 1][:rng.randrange(len(ls[j - 1]) + 1)]; eols[j - 1] = b""
+            elif c == 6:    # the empty line itself
+                end = rng.choice([b"\n", b"\r\r\n", b"\x00\r\n", b"\r\x00\n", b" \r\n", b"\t\n", b"\r"])
+            else:           # NUL right behind a line end (first byte of the next line)
+                j = rng.randrange(len(ls))
+                if j + 1 < len(ls):
+                    ls[j + 1] = b"\x00" + ls[j + 1]
+                else:
+                    end = b"\x00" + end
+        hs = b"".join(l + e for l, e in zip(ls, eols)) + end
+        masked = mode == "s"
+        frames = [ws_frame(rng, mode, ws_msg(rng, 0)) if rng.random() < 0.8 else ws_special(rng, mode)
+                  for _ in range(rng.choice([0, 1, 1, 2, 3]))]
+        if rng.random() < 0.3:
+            frames.append(b"\r\n" * rng.choice([1, 2, 40, 90]))      # more "lines" behind
+        stream = hs + b"".join(frames)
+        n, h = len(stream), len(hs)
+        pos = 0
+        for l, e in zip(ls, eols):
+            marks += [pos, pos + 1, pos + len(l), pos + len(l) + 1, pos + len(l) + len(e)]
+            pos += len(l) + len(e)
+        marks += [h - 1, h, h + 1, h + 2]
+        marks += [k for k in range(n) if stream[k] == 0 for k in (k, k + 1)][:8]
+        marks = sorted({c for c in marks if 0 < c < n})
+        segs = [[], list(range(1, n)), list(range(14, n, 14)), list(range(rng.randrange(1, 14), n, 14)), marks]
+        for c in rng.sample(marks, min(len(marks), 6)):
+            segs.append([c])
+        for _ in range(3):
+            segs.append(sorted(set(rng.sample(marks, min(len(marks), rng.randint(2, 4))))) if marks else [])
+        for _ in range(3):
+            segs.append(seg_random(rng, n))
+        seen = set()
+        for cs in segs:
+            if tuple(cs) not in seen:
+                seen.add(tuple(cs))
+                out.append(ws_line(mode, stream, cs))
+    return out
+
+
+def gen_ws_close(ctx, n_streams):
+    """`wsclose`: the application closes an established session while bytes are pending: coap_ws_close sends its Close
+    frame and drains the socket (at most 5 coap_ws_read calls into a 100-byte buffer) for the peer's Close frame.
+    Ties the model's `closeDrain` (recv_close, bytes left unread) to the code; no S column."""
+    rng = ctx.rng
+    out = []
+    for i in range(n_streams):
+        mode = rng.choice(["c", "s"])
+        masked = mode == "s"
+        hs = W.handshake(mode, rng, rng.choice([0, 0, 2]))
+        mk = lambda: G.rbytes(rng, 4) if masked else None
+        before = [ws_frame(rng, mode, ws_msg(rng, 0)) for _ in range(rng.choice([0, 1, 2]))]
+        pend = []
+        for _ in range(rng.choice([0, 1, 2, 3, 4, 5, 6, 8])):
+            c = rng.randrange(10)
+            if c < 4: pend.append(ws_frame(rng, mode, ws_msg(rng, 0)))
+            elif c == 4: pend.append(W.frame(b"", masked, mask=mk(), lenform=rng.choice([None, 16, 64])))
+            elif c == 5: pend.append(W.frame(G.rbytes(rng, rng.choice([90, 99, 100, 101, 126, 300, 1472, 1473])), masked, mask=mk()))
+            elif c == 6: pend.append(W.frame(b"", masked, mask=mk()) * rng.choice([3, 10, 30]))
+            elif c == 7: pend.append(ws_special(rng, mode))
+            else: pend.append(W.frame(rng.choice([b"", b"\x03\xe8", b"\x03\xe9bye"]), masked, mask=mk(), opcode=W.OP_CLOSE))
+        if rng.random() < 0.6:
+            pend.append(W.frame(b"\x03\xe8", masked, mask=mk(), opcode=W.OP_CLOSE))
+        if pend and rng.random() < 0.2:
+            pend[-1] = pend[-1][:rng.randrange(1, len(pend[-1]) + 1)]
+        head = hs + b"".join(before)
+        stream = head + b"".join(pend)
+        cuts = {len(head)}
+        for d in (-3, -1, 1, 2, 5):          # the close comes inside a frame header / payload
+            if len(hs) <= len(head) + d <= len(stream):
+                cuts.add(len(head) + d)
+        if rng.random() < 0.1:
+            cuts.add(rng.randrange(1, len(hs)))     # handshake not done: nothing to drain
+        for c in sorted(cuts):
+            out.append("wsclose %s %s %d" % (mode, hx(stream), c))
+    return out
+
+
 def generate(ctx, escalate=False):
     if ctx.thorough():
         lines = gen_tcp(ctx, 6000, 40, 60) + gen_ws(ctx, 5000, 16, 80)
@@ -438,6 +566,8 @@ def generate(ctx, escalate=False):
     if escalate:
         lines += gen_tcp(ctx, 1500, 22, 8) + gen_ws(ctx, 600, 12, 10)
     lines += gen_ws_empty_runs(ctx, 60 if ctx.thorough() else 12)
+    lines += gen_ws_hostile_hs(ctx, 2500 if ctx.thorough() else 300)
+    lines += gen_ws_close(ctx, 3000 if ctx.thorough() else 400)
     ctx.cov["exhaustive"] = ("every 1-, 2- and 3-cut placement of %d TCP streams and of the frame part of %d WS streams"
                              % (ctx.cov.get("exhaustive_streams", 0), ctx.cov.get("ws_exhaustive_streams", 0)))
     return ["consts"] + gen_tcp_cap_boundary(ctx) + lines
@@ -476,6 +606,8 @@ def judge(ctx, c):
 
 
 def nontrivial(c):
+    if c["input"].startswith("wsclose "):
+        return " drain " in (c["model"] or "")
     s = c["spec"] or ""
     return not (s.startswith("n=0 end=open") and "up=1" not in s)
 
@@ -484,6 +616,10 @@ def classify(c):
     w = c["input"].split()
     if w[0] == "consts":
         return "consts"
+    if w[0] == "wsclose":
+        m = c["model"] or ""
+        return "wsclose-%s:%s" % (w[1], "noclose" if "noclose" in m else "recv-close" if "rc=1" in m else
+                                  "drained" if m.endswith("left=0") else "left")
     s = c["spec"] or ""
     ncuts = 0 if w[3] == "-" else w[3].count(",") + 1
     if w[0] == "ws":
